@@ -340,6 +340,8 @@ class Interp:
             if key in self.builtins:
                 return self.builtins[key]
             return self.loader.external(v.name, name)
+        if isinstance(v, Builtin) and f"{v.name}.{name}" in self.builtins:
+            return self.builtins[f"{v.name}.{name}"]          # e.g. itertools.chain.from_iterable
         if isinstance(v, Builtin) and v.name == "dict" and name == "fromkeys":
             def fromkeys(it, fr, a, k):
                 d = PyDict()
